@@ -1,18 +1,27 @@
 (* Prop_C09.v -- C09: DBA declares termination only on a satisfying assignment.
 
-   FULL STATEMENT (target, not proved as such):
+   FULL STATEMENT:
      forall problem, max_distance >= every hop distance, 0 < infinity, forall sched,
        let (cf, evs) := run (dba_proto ...) sched in
        at every prefix of sched ending with an EvFinished event, satisfying (held cf_prefix).
    What is proved below:
-     * the statement for the synchronous-round semantics of the same node-local functions
-       (dba_sync_finish_safe_partial, dba_sync_safe_forever, dba_counter_radius), all problems, all sizes,
-       all random draws, any number of rounds;
-     * for EVERY asynchronous schedule: see the second group.
-   Missing for the full statement: the round-synchronisation lemma (under per-channel FIFO every node
-   computes in its k-th cycle exactly what [sround] computes in round k); it is checked on every run
-   by the correspondence (M_Dba.sync_agrees). *)
-From PyDcop Require Import Base Net M_Dba P_Dba.
+     * [dba_finish_safe]: the statement for the FIRST EvFinished of a run, for EVERY asynchronous
+       per-channel-FIFO schedule (any interleaving of start() calls and deliveries), all problems, all sizes,
+       all random draws: the assignment held by ALL computations right after the step that calls finished()
+       violates no constraint (hypotheses: well-formed problem, 0 < infinity, every variable of a constraint
+       within max_distance hops of the finishing computation).  It rests on
+     * [dba_refines_rounds] (round synchronisation): before the first finished() every reachable configuration
+       satisfies the barrier invariant M_Dba2.Inv - every started computation is in the state, and every
+       message in flight / buffered / postponed is the message, that the synchronous rounds [srounds]
+       prescribe; readable consequences: [dba_phase_gap], [dba_delivery_expected], [dba_postponed_next_phase];
+     * the synchronous-round theorems (dba_sync_finish_safe_partial, dba_sync_safe_forever, dba_counter_radius)
+       and the all-schedule facts of the first build (second group).
+   Not proved: the statement for the LATER finished() calls of the same run (after the first one the stopped
+   computation skips one ok? broadcast - a quirk kept in the model - so the barrier invariant no longer holds
+   as stated; every later finished() is caused by the dba_end flood and the assignment no longer changes in
+   the synchronous semantics [dba_sync_safe_forever]); these are checked on every run by the correspondence
+   oracle (snapshot of all values at EVERY finished() call). *)
+From PyDcop Require Import Base Net M_Dba P_Dba M_Dba2 P_Dba2.
 
 Theorem dba_sync_finish_safe_partial :
   forall (cs : list constr) (ncs : node -> list nat) (dom : node -> list Z) (infinity maxd : Z)
@@ -76,6 +85,74 @@ Theorem dba_sinit_is_initial :
   forall cs ncs dom infinity orc0, gst_init ncs (sinit cs ncs dom infinity orc0).
 Proof. exact sinit_init. Qed.
 
+(* ---- round synchronisation and safety for EVERY asynchronous schedule (P_Dba2.v; vocabulary in M_Dba2.v) *)
+Theorem dba_refines_rounds :
+  forall cs ncs dom infinity maxd orc0, wf_problem cs ncs ->
+  forall (sched : list (@action)),
+    (forall m, ~ In (EvFinished m) (snd (run (dba_proto cs ncs dom infinity maxd orc0) sched))) ->
+    Inv cs ncs dom infinity maxd orc0 (fst (run (dba_proto cs ncs dom infinity maxd orc0) sched)).
+Proof. exact run_Inv. Qed.
+
+Theorem dba_phase_gap :
+  forall cs ncs dom infinity maxd orc0, wf_problem cs ncs ->
+  forall (sched : list (@action)),
+    (forall m, ~ In (EvFinished m) (snd (run (dba_proto cs ncs dom infinity maxd orc0) sched))) ->
+    forall a b, In a (nbrs cs ncs b) ->
+      (ph (nodes (fst (run (dba_proto cs ncs dom infinity maxd orc0) sched)) a)
+       <= S (ph (nodes (fst (run (dba_proto cs ncs dom infinity maxd orc0) sched)) b)))%nat.
+Proof. exact phase_gap. Qed.
+
+Theorem dba_delivery_expected :
+  forall cs ncs dom infinity maxd orc0, wf_problem cs ncs ->
+  forall (sched : list (@action)),
+    (forall m, ~ In (EvFinished m) (snd (run (dba_proto cs ncs dom infinity maxd orc0) sched))) ->
+    forall (a0 b0 : node) (m : dmsg) (q : list dmsg),
+      let cf := fst (run (dba_proto cs ncs dom infinity maxd orc0) sched) in
+      w_running (nodes cf b0) = true -> chan cf a0 b0 = m :: q ->
+      let s := w_st (nodes cf b0) in
+      In a0 (nbrs cs ncs b0) /\
+      match d_mode s with
+      | OkM => (got s a0 = false /\ m = MOk (sassign (G cs ncs dom infinity maxd orc0 (cyc s)) a0))
+               \/ (got s a0 = true /\ m = impm (mimp cs ncs dom infinity maxd orc0 (cyc s) a0))
+      | ImpM => (got s a0 = false /\ m = impm (mimp cs ncs dom infinity maxd orc0 (cyc s) a0))
+                \/ (got s a0 = true /\ m = MOk (sassign (G cs ncs dom infinity maxd orc0 (S (cyc s))) a0))
+      | Starting => exists v, m = MOk v
+      | FinM => False
+      end.
+Proof. exact delivery_expected. Qed.
+
+Theorem dba_postponed_next_phase :
+  forall cs ncs dom infinity maxd orc0, wf_problem cs ncs ->
+  forall (sched : list (@action)),
+    (forall m, ~ In (EvFinished m) (snd (run (dba_proto cs ncs dom infinity maxd orc0) sched))) ->
+    forall b : node,
+      let cf := fst (run (dba_proto cs ncs dom infinity maxd orc0) sched) in
+      w_running (nodes cf b) = true ->
+      let s := w_st (nodes cf b) in
+      match d_mode s with
+      | OkM => NoDup (map fst (d_pimp s))
+               /\ (forall a m, In (a, m) (d_pimp s) ->
+                     In a (nbrs cs ncs b) /\ got s a = true /\ m = mimp cs ncs dom infinity maxd orc0 (cyc s) a)
+      | ImpM => NoDup (map fst (d_pok s)) /\ d_pimp s = []
+                /\ (forall a v, In (a, v) (d_pok s) ->
+                      In a (nbrs cs ncs b) /\ got s a = true
+                      /\ v = sassign (G cs ncs dom infinity maxd orc0 (S (cyc s))) a)
+      | _ => True
+      end.
+Proof. exact postponed_next_phase. Qed.
+
+(* the headline: for every schedule, right after the step that produces the first finished() of the run,
+   the assignment held by all computations violates no constraint *)
+Theorem dba_finish_safe :
+  forall cs ncs dom infinity maxd orc0, wf_problem cs ncs -> 0 < infinity ->
+  forall (sched : list (@action)) (a : @action) (n : node),
+    let P := dba_proto cs ncs dom infinity maxd orc0 in
+    (forall m, ~ In (EvFinished m) (snd (run P sched))) ->
+    In (EvFinished n) (snd (step P (fst (run P sched)) a)) ->
+    (forall x, occurs cs x -> within cs ncs (Z.to_nat maxd) n x) ->
+    satisfying cs infinity (held (fst (step P (fst (run P sched)) a))).
+Proof. exact finish_safe. Qed.
+
 (* non-vacuity: an instance meeting every hypothesis of dba_sync_finish_safe_partial, in which the
    assignment violates the constraint in round 0 and a computation stops in round 1; and an
    asynchronous run of the same instance that reaches finished() *)
@@ -89,4 +166,17 @@ Example dba_nonvacuous :
 Proof.
   exact (conj ex_wf (conj (sinit_init _ _ _ _ _) (conj ex_conn
           (conj (proj1 ex_stops) (conj (proj1 (proj2 (proj2 ex_stops))) (proj1 ex_async)))))).
+Qed.
+
+(* non-vacuity of dba_finish_safe: on the same instance, nobody has finished after the first 8 actions
+   of ex_sched, the 9th action (Deliver 0 1) makes computation 1 call finished(), and every hypothesis of
+   the theorem holds for it *)
+Example dba_finish_safe_nonvacuous :
+  let PX := dba_proto ex_cs ex_ncs ex_dom 10000 1 ex_orc in
+  wf_problem ex_cs ex_ncs /\ 0 < 10000
+  /\ (forall m, ~ In (EvFinished m) (snd (run PX (firstn 8 ex_sched))))
+  /\ In (EvFinished 1) (snd (step PX (fst (run PX (firstn 8 ex_sched))) (Deliver 0 1)))
+  /\ (forall x, occurs ex_cs x -> within ex_cs ex_ncs (Z.to_nat 1) 1 x).
+Proof.
+  exact (conj ex_wf (conj eq_refl (conj (proj1 ex_first_finish) (conj (proj1 (proj2 ex_first_finish)) ex_conn1)))).
 Qed.
